@@ -233,7 +233,8 @@ def patch_rules(facts, rep, rule="C01-PATCH"):
     if ee:
         e0 = ee[0]
         exe = Ex(e0)
-        st_ = [(bi_, si_, s_) for bi_, si_, s_ in e0.stmts() if s_["k"] == "assign" and [q.get("n") for q in s_["place"]["p"] if q["k"] == "field"][-2:] == ["stats", "start"]]
+        st_ = [(bi_, si_, s_) for bi_, si_, s_ in e0.stmts() if s_["k"] == "assign" and ([q.get("n") for q in s_["place"]["p"] if q["k"] == "field"][-2:] == ["stats", "start"] or
+                ([q.get("n") for q in s_["place"]["p"] if q["k"] == "field"][-1:] == ["start"] and any("ZipWriterStats" in str(q.get("adt") or "") for q in s_["place"]["p"])))]
         ds_ = [(bi_, si_, s_) for bi_, si_, s_ in e0.stmts() if s_["k"] == "assign" and s_["place"]["p"] and s_["place"]["p"][-1]["k"] == "deref" and
                "data_start" in (e0.local_name(s_["place"]["l"]) or "")]
         wr_ = [b_ for b_, t_ in e0.calls() if (t_.get("callee") or "").endswith("Write::write_all")]
